@@ -244,6 +244,17 @@ def execute(scn):
             stats['execution_failed'] = 1       # C01's business
             # still compare the prefix that was executed
         exe = executed_by_app(x)
+        # "in order" also across apps: the preview lists the apps in the
+        # order in which their statements are executed
+        prev_order = [a_ for a_ in prev if prev[a_]]
+        exe_order = [a_ for a_ in exe if exe[a_]]
+        if len(exe_order) > 1:
+            stats['several_apps_with_sql'] = 1
+        if x.status == 'ok' and sorted(prev_order) == sorted(exe_order) \
+                and prev_order != exe_order:
+            viols.append(violation('C14.preview_app_order',
+                                   previewed=prev_order, executed=exe_order,
+                                   installed=P['order'], **detail))
         for app in sorted(set(prev) | set(exe)):
             a, b = prev.get(app, []), exe.get(app, [])
             if x.status != 'ok':
